@@ -76,8 +76,19 @@ impl Ty {
             Ty::Bool => vec![Val::Bool(false), Val::Bool(true)],
             Ty::Char => vec![Val::Char('a'), Val::Char('b'), Val::Char('z')],
             Ty::StrRef | Ty::String | Ty::Newtype => vec![s(""), s("a"), s("ab"), s("b")],
-            Ty::OptU8 => vec![Val::Opt(None), Val::Opt(Some(0)), Val::Opt(Some(1)), Val::Opt(Some(3))],
-            Ty::Pair => vec![Val::Pair(0, 0), Val::Pair(0, 1), Val::Pair(1, 0), Val::Pair(1, 1), Val::Pair(2, 3)],
+            Ty::OptU8 => vec![
+                Val::Opt(None),
+                Val::Opt(Some(0)),
+                Val::Opt(Some(1)),
+                Val::Opt(Some(3)),
+            ],
+            Ty::Pair => vec![
+                Val::Pair(0, 0),
+                Val::Pair(0, 1),
+                Val::Pair(1, 0),
+                Val::Pair(1, 1),
+                Val::Pair(2, 3),
+            ],
             Ty::Enum => vec![
                 Val::EA,
                 Val::EB(0),
@@ -87,7 +98,12 @@ impl Ty {
                 Val::EC(1, true),
                 Val::EC(1, false),
             ],
-            Ty::Struct => vec![Val::S(0, false), Val::S(1, false), Val::S(1, true), Val::S(4, true)],
+            Ty::Struct => vec![
+                Val::S(0, false),
+                Val::S(1, false),
+                Val::S(1, true),
+                Val::S(4, true),
+            ],
             Ty::VecU8 | Ty::SliceRef => vec![
                 Val::Bytes(vec![]),
                 Val::Bytes(vec![1]),
@@ -276,18 +292,30 @@ pub fn matches(p: &P, v: &Val, env: &mut Env) -> bool {
         (P::Some(sub), Val::Opt(Some(x))) => matches(sub, &Val::U8(*x), env),
         (P::Some(_), Val::Opt(None)) => false,
         (P::None, Val::Opt(o)) => o.is_none(),
-        (P::Pair(a, b), Val::Pair(x, y)) => matches(a, &Val::U8(*x), env) && matches(b, &Val::U8(*y), env),
+        (P::Pair(a, b), Val::Pair(x, y)) => {
+            matches(a, &Val::U8(*x), env) && matches(b, &Val::U8(*y), env)
+        }
         (P::EA, v @ (Val::EA | Val::EB(_) | Val::EC(..))) => matches!(v, Val::EA),
         (P::EB(sub), Val::EB(x)) => matches(sub, &Val::U8(*x), env),
         (P::EB(_), Val::EA | Val::EC(..)) => false,
         (P::EC(px, py), Val::EC(x, y)) => {
-            px.as_ref().map(|p| matches(p, &Val::U8(*x), env)).unwrap_or(true)
-                && py.as_ref().map(|p| matches(p, &Val::Bool(*y), env)).unwrap_or(true)
+            px.as_ref()
+                .map(|p| matches(p, &Val::U8(*x), env))
+                .unwrap_or(true)
+                && py
+                    .as_ref()
+                    .map(|p| matches(p, &Val::Bool(*y), env))
+                    .unwrap_or(true)
         }
         (P::EC(..), Val::EA | Val::EB(_)) => false,
         (P::S(pa, pb), Val::S(a, b)) => {
-            pa.as_ref().map(|p| matches(p, &Val::U8(*a), env)).unwrap_or(true)
-                && pb.as_ref().map(|p| matches(p, &Val::Bool(*b), env)).unwrap_or(true)
+            pa.as_ref()
+                .map(|p| matches(p, &Val::U8(*a), env))
+                .unwrap_or(true)
+                && pb
+                    .as_ref()
+                    .map(|p| matches(p, &Val::Bool(*b), env))
+                    .unwrap_or(true)
         }
         (P::Slice(prefix, rest, suffix), Val::Bytes(bytes)) => {
             let need = prefix.len() + suffix.len();
@@ -315,7 +343,10 @@ pub fn matches(p: &P, v: &Val, env: &mut Env) -> bool {
                 }
             }
             if let Some(Some(name)) = rest {
-                env.insert(name.clone(), Val::Bytes(bytes[prefix.len()..tail_start].to_vec()));
+                env.insert(
+                    name.clone(),
+                    Val::Bytes(bytes[prefix.len()..tail_start].to_vec()),
+                );
             }
             true
         }
@@ -377,7 +408,9 @@ pub fn print_guard_user(g: &G) -> String {
 }
 
 pub fn print_pat(p: &P, ty: Ty) -> String {
-    let f = |o: &Option<Box<P>>, name: &str, t: Ty| o.as_ref().map(|p| format!("{name}: {}", print_pat(p, t)));
+    let f = |o: &Option<Box<P>>, name: &str, t: Ty| {
+        o.as_ref().map(|p| format!("{name}: {}", print_pat(p, t)))
+    };
     match p {
         P::Wild => "_".into(),
         P::Bind(n) => n.clone(),
@@ -388,21 +421,31 @@ pub fn print_pat(p: &P, ty: Ty) -> String {
         P::Char(c) => format!("{c:?}"),
         P::CharRange(lo, hi) => format!("{lo:?}..={hi:?}"),
         P::Str(s) => format!("{s:?}"),
-        P::Or(alts) => alts.iter().map(|a| print_pat(a, ty)).collect::<Vec<_>>().join(" | "),
+        P::Or(alts) => alts
+            .iter()
+            .map(|a| print_pat(a, ty))
+            .collect::<Vec<_>>()
+            .join(" | "),
         P::Some(sub) => format!("Some({})", print_pat(sub, Ty::U8)),
         P::None => "None".into(),
         P::Pair(a, b) => format!("({}, {})", print_pat(a, Ty::U8), print_pat(b, Ty::U8)),
         P::EA => "E::A".into(),
         P::EB(sub) => format!("E::B({})", print_pat(sub, Ty::U8)),
         P::EC(x, y) => {
-            let mut parts: Vec<String> = [f(x, "x", Ty::U8), f(y, "y", Ty::Bool)].into_iter().flatten().collect();
+            let mut parts: Vec<String> = [f(x, "x", Ty::U8), f(y, "y", Ty::Bool)]
+                .into_iter()
+                .flatten()
+                .collect();
             if x.is_none() || y.is_none() {
                 parts.push("..".into());
             }
             format!("E::C {{ {} }}", parts.join(", "))
         }
         P::S(a, b) => {
-            let mut parts: Vec<String> = [f(a, "a", Ty::U8), f(b, "b", Ty::Bool)].into_iter().flatten().collect();
+            let mut parts: Vec<String> = [f(a, "a", Ty::U8), f(b, "b", Ty::Bool)]
+                .into_iter()
+                .flatten()
+                .collect();
             if a.is_none() || b.is_none() {
                 parts.push("..".into());
             }
@@ -439,7 +482,8 @@ pub fn has_construct(p: &P, f: &dyn Fn(&P) -> bool) -> bool {
         P::Or(v) => v.iter().any(|s| has_construct(s, f)),
         P::Pair(a, b) => has_construct(a, f) || has_construct(b, f),
         P::EC(a, b) | P::S(a, b) => {
-            a.as_ref().map(|s| has_construct(s, f)).unwrap_or(false) || b.as_ref().map(|s| has_construct(s, f)).unwrap_or(false)
+            a.as_ref().map(|s| has_construct(s, f)).unwrap_or(false)
+                || b.as_ref().map(|s| has_construct(s, f)).unwrap_or(false)
         }
         P::Slice(pre, _, suf) => pre.iter().chain(suf.iter()).any(|s| has_construct(s, f)),
         _ => false,
@@ -451,7 +495,15 @@ pub fn has_construct(p: &P, f: &dyn Fn(&P) -> bool) -> bool {
 
 /// u8-position pattern without bindings
 fn u8_nobind() -> BoxedStrategy<P> {
-    let lit = prop_oneof![Just(0u8), Just(1), Just(2), Just(3), Just(5), Just(9), Just(7)];
+    let lit = prop_oneof![
+        Just(0u8),
+        Just(1),
+        Just(2),
+        Just(3),
+        Just(5),
+        Just(9),
+        Just(7)
+    ];
     let leaf = prop_oneof![
         3 => lit.clone().prop_map(P::U8),
         2 => (0..6u8, 0..5u8).prop_map(|(lo, w)| P::Range(lo, lo + w)),
@@ -498,7 +550,13 @@ fn opt_box(p: PV, keep: bool) -> (Option<Box<P>>, Vec<(String, VarKind)>) {
 
 /// Pattern for one argument position. `allow_str_lit` / `allow_slice` / `allow_eq` encode the
 /// macro's coercion rules across alternatives (see gen_case); `prefix` makes variable names unique.
-pub fn arg_pat(ty: Ty, prefix: String, allow_str_lit: bool, allow_eq: bool, allow_bind: bool) -> BoxedStrategy<PV> {
+pub fn arg_pat(
+    ty: Ty,
+    prefix: String,
+    allow_str_lit: bool,
+    allow_eq: bool,
+    allow_bind: bool,
+) -> BoxedStrategy<PV> {
     let whole = format!("{prefix}w");
     let whole_kind = match ty {
         Ty::U8 => VarKind::U8,
@@ -607,7 +665,10 @@ pub fn arg_pat(ty: Ty, prefix: String, allow_str_lit: bool, allow_eq: bool, allo
                 .boxed()
         }
     };
-    let coercing = matches!(ty, Ty::StrRef | Ty::String | Ty::Newtype | Ty::VecU8 | Ty::SliceRef);
+    let coercing = matches!(
+        ty,
+        Ty::StrRef | Ty::String | Ty::Newtype | Ty::VecU8 | Ty::SliceRef
+    );
     match (coercing, allow_str_lit, allow_eq) {
         // literal / slice patterns at this position (eq!/ne! excluded by the macro's coercion)
         (true, true, _) => prop_oneof![9 => structural, 1 => wild, 1 => bind].boxed(),
@@ -620,14 +681,36 @@ pub fn arg_pat(ty: Ty, prefix: String, allow_str_lit: bool, allow_eq: bool, allo
 }
 
 fn guard_atom(vars: Vec<(String, VarKind)>) -> BoxedStrategy<G> {
-    let u8s: Vec<String> = vars.iter().filter(|(_, k)| *k == VarKind::U8).map(|(n, _)| n.clone()).collect();
-    let bools: Vec<String> = vars.iter().filter(|(_, k)| *k == VarKind::Bool).map(|(n, _)| n.clone()).collect();
-    let lens: Vec<String> = vars.iter().filter(|(_, k)| *k == VarKind::Len).map(|(n, _)| n.clone()).collect();
-    let op = prop_oneof![Just(Op::Lt), Just(Op::Le), Just(Op::Eq), Just(Op::Ne), Just(Op::Gt)];
+    let u8s: Vec<String> = vars
+        .iter()
+        .filter(|(_, k)| *k == VarKind::U8)
+        .map(|(n, _)| n.clone())
+        .collect();
+    let bools: Vec<String> = vars
+        .iter()
+        .filter(|(_, k)| *k == VarKind::Bool)
+        .map(|(n, _)| n.clone())
+        .collect();
+    let lens: Vec<String> = vars
+        .iter()
+        .filter(|(_, k)| *k == VarKind::Len)
+        .map(|(n, _)| n.clone())
+        .collect();
+    let op = prop_oneof![
+        Just(Op::Lt),
+        Just(Op::Le),
+        Just(Op::Eq),
+        Just(Op::Ne),
+        Just(Op::Gt)
+    ];
     let mut options: Vec<BoxedStrategy<G>> = vec![];
     if !u8s.is_empty() {
         let u = u8s.clone();
-        options.push((0..u8s.len(), op.clone(), 0..6u8).prop_map(move |(i, op, c)| G::CmpConst(u[i].clone(), op, c)).boxed());
+        options.push(
+            (0..u8s.len(), op.clone(), 0..6u8)
+                .prop_map(move |(i, op, c)| G::CmpConst(u[i].clone(), op, c))
+                .boxed(),
+        );
     }
     if u8s.len() >= 2 {
         let u = u8s.clone();
@@ -639,11 +722,19 @@ fn guard_atom(vars: Vec<(String, VarKind)>) -> BoxedStrategy<G> {
     }
     if !bools.is_empty() {
         let b = bools.clone();
-        options.push((0..bools.len(), any::<bool>()).prop_map(move |(i, n)| G::BoolVar(b[i].clone(), n)).boxed());
+        options.push(
+            (0..bools.len(), any::<bool>())
+                .prop_map(move |(i, n)| G::BoolVar(b[i].clone(), n))
+                .boxed(),
+        );
     }
     if !lens.is_empty() {
         let l = lens.clone();
-        options.push((0..lens.len(), op, 0..3u8).prop_map(move |(i, op, c)| G::LenCmp(l[i].clone(), op, c)).boxed());
+        options.push(
+            (0..lens.len(), op, 0..3u8)
+                .prop_map(move |(i, op, c)| G::LenCmp(l[i].clone(), op, c))
+                .boxed(),
+        );
     }
     if options.is_empty() {
         return prop_oneof![3 => Just(G::True), 1 => Just(G::Not(Box::new(G::True)))].boxed();
